@@ -317,6 +317,28 @@ fn depth_cases(max_k: u32) -> Vec<Case> {
     v
 }
 
+/// `levels` nested containers that each announce `count` elements, with `tail` one-byte terms behind them: a reader that
+/// reserves "what is left of the input" per level multiplies the reservation by the nesting depth
+fn nested_count_bombs() -> Vec<Case> {
+    let mut v = vec![];
+    for (tag, width) in [(104u8, 1usize), (105, 4), (108, 4)] {
+        for levels in [2usize, 16, 100, 250] {
+            for count in [255u32, 65_536, 1_048_576, u32::MAX] {
+                for tail in [0usize, 1_000, 100_000] {
+                    let mut b = vec![131u8];
+                    for _ in 0..levels {
+                        b.push(tag);
+                        b.extend_from_slice(&count.to_be_bytes()[4 - width..]);
+                    }
+                    b.extend(std::iter::repeat(106u8).take(tail));
+                    v.push(Case::Raw(b));
+                }
+            }
+        }
+    }
+    v
+}
+
 fn compressed_cases(big: bool) -> Vec<Case> {
     let mut v = vec![];
     let ns: Vec<u32> = if big { vec![0, 10, 1000, 100_000, 5_000_000, 50_000_000] } else { vec![0, 10, 1000, 100_000, 5_000_000] };
@@ -363,7 +385,7 @@ fn truncations(seed: [u8; 32], n: usize) -> Vec<Case> {
 
 pub fn run(run: &mut Run) {
     run.rule = "adversarial inputs built for the purpose, each run through all nine decoding entry points in an isolated worker process on 2 MiB-stack threads under a counting allocator: \
-        (a) every tag with a length/arity/count field x {0,1,255,256,65535,65536,10^6,10^7,10^7+1,10^8,2^31-1,2^31,2^32-1} x little or no data behind it, at top level and inside each container; \
+        (a) every tag with a length/arity/count field (for closures both size fields; and 2..250 nested containers that each announce up to 2^32-1 elements in front of 0..100000 one-byte terms) x {0,1,255,256,65535,65536,10^6,10^7,10^7+1,10^8,2^31-1,2^31,2^32-1} x little or no data behind it, at top level and inside each container; \
         (b) nesting to depth 2..10^6 through every container tag (tuples, list element/tail, map key/value, fun free variable, LOCAL_EXT, COMPRESSED-in-COMPRESSED); (c) COMPRESSED sections that inflate \
         to less than, exactly, and up to 10^7 x more than declared; (d) every truncation of a sample of valid encodings; (e) bit flips, boundary overwrites, splices; (f) raw bytes. \
         Oracle: every entry point returns, worker alive, peak requested bytes <= 1 MiB + 256 x (input length + legitimately inflated bytes). Non-trivial = input of >= 3 bytes behind the version byte; distinct by bytes"
@@ -374,16 +396,22 @@ pub fn run(run: &mut Run) {
         "the harness is built with opt-level 2; stack frames of an unoptimised build are larger".into(),
     ];
     run.enumerate("count-bombs", all_count_bombs().into_iter(), oracle);
+    run.enumerate("nested-count-bombs", nested_count_bombs().into_iter(), oracle);
     run.enumerate("deep-nesting", depth_cases(run.tier.pick(1_000_000, 1_000_000)).into_iter(), oracle);
     run.enumerate("compressed", compressed_cases(run.tier == crate::engine::Tier::Thorough).into_iter(), oracle);
     let t = truncations(run.seed_for("truncations"), run.tier.pick(60, 1500));
     run.enumerate("all-truncations", t.into_iter(), oracle);
     run.prop("mutations-and-random", mutated_strategy, run.tier.pick(25_000, 1_000_000), oracle);
+    if run.tier == crate::engine::Tier::Thorough {
+        // coverage-guided byte fuzzing of the same oracle (libFuzzer, structure-aware through fuzzde); see fuzzbridge.rs
+        crate::fuzzbridge::campaign(run, "decode", 3_000_000, 400);
+    }
 }
 
 pub fn replays() -> Vec<ReplayEntry> {
-    vec![
+    vec![replay_entry("fuzz:decode", crate::fuzzbridge::eval_input), 
         replay_entry("count-bombs", oracle),
+        replay_entry("nested-count-bombs", oracle),
         replay_entry("deep-nesting", oracle),
         replay_entry("compressed", oracle),
         replay_entry("all-truncations", oracle),
